@@ -1,7 +1,7 @@
 (* C13 - A backslash makes the next character literal, everywhere.
    Statements only; proofs in Proofs/PegEscape.v (on the grammar regenerated from akn.peg). *)
 Require Import BB.Base.Str BB.Base.Dict BB.Model.PegSyntax BB.Model.Peg BB.Model.Types BB.Gen.Grammar.
-Require Import BB.Proofs.Totality BB.Proofs.PegEscape BB.Proofs.EscapedLine BB.Proofs.EscapedHeading.
+Require Import BB.Proofs.Totality BB.Proofs.PegEscape BB.Proofs.EscapedLine BB.Proofs.EscapedHeading BB.Proofs.EscapedNum.
 
 (* grammar level, for every non-empty string of scalar values without a newline, every position
    and any sufficient fuel: inline+ on the character-by-character escaped string consumes exactly
@@ -52,6 +52,21 @@ Theorem C13_escaped_heading_literal : forall td s pre post h,
   hier_heading_to_dict (pre ++ 32 :: 45 :: 32 :: esc s ++ post) td h = OkR (Some [DText s]).
 Proof. exact escaped_heading_literal. Qed.
 Print Assumptions C13_escaped_heading_literal.
+
+(* in numbers: after the keyword's space, the escaped string up to the line end is read by rule hier_element_heading_num
+   as one escape node per character (the heading separator cannot start at a backslash) ... *)
+Theorem C13_escaped_num_parses : forall f s rest off,
+  Forall okc s -> s <> [] ->
+  run akn_peg (11 + f) (Ref (of_string "hier_element_heading_num")) (32 :: esc s ++ NL :: rest) off
+  = Ok (NL :: rest) (off + 1 + 2 * len_N s) (num_node off s).
+Proof. exact escaped_num_parses. Qed.
+Print Assumptions C13_escaped_num_parses.
+
+(* ... and the num the dict stage takes from it - the unescaped text of the content node - is the string itself *)
+Theorem C13_escaped_num_literal : forall s pre post,
+  Forall okc s -> unescape (text (pre ++ 32 :: esc s ++ post) (num_content_node (len_N pre + 1) s)) = s.
+Proof. exact escaped_num_literal. Qed.
+Print Assumptions C13_escaped_num_literal.
 
 (* non-vacuity: a string made of markers and keywords *)
 Example C13_example :
